@@ -178,6 +178,16 @@ impl<S> Map<S> {
         Ok(())
     }
 
+    /// Verification hook (read-only): open groups in the control sequence map and in the
+    /// active character map.
+    #[cfg(feature = "verif")]
+    pub fn verif_group_depths(&self) -> (usize, usize) {
+        (
+            self.commands.verif_num_groups(),
+            self.active_char.verif_num_groups(),
+        )
+    }
+
     pub fn is_empty(&self) -> bool {
         self.len() == 0
     }
